@@ -16,7 +16,8 @@ RULE = ("all 9,331 index lists of length 0..5 over {0,1,2^31-1,2^31,2^31+1,2^32-
         "numbers with and without marker, junk, empty inner token) applied at every component position of 4 base paths, 7 wrong "
         "roots; all paths of 6..12 levels over {0,1'} (2^6+..; quick: 6..8 complete, 9..12 two per depth). "
         "non-trivial = the implementation's answer (string, list, node or refusal) was compared with the reference grammar / "
-        "reference derivation; distinct by construction")
+        "reference derivation; distinct by construction"
+        "; BIP85 entropy(path) for all lists of length<=3; intermediate-corner classes (vf/corners.py) for key/chain code at the first of three levels and child x on the watch-only side")
 
 FAULTS = ["-1", "-1'", "-1h", "-2147483648'", "-2147483647'", "-2147483649'", "4294967296", "2147483648'", "4294967295h", "4294967296'",
           "x", "0x1f", "0b1", "1.0", "1e3", "1''", "1'h", "'", "h", "None", ""]
